@@ -229,6 +229,16 @@ class ImpStub(om.ImplicitComponent):
         o = s['outs'][0]
         self.add_output(o['name'], shape=tuple(o['shape']), units=o['units'], **_out_kwargs(o))
         self._decl = {}
+        if s.get('approx'):
+            a = s['approx']
+            kw = {'method': a['method']}
+            if a['method'] == 'fd':
+                kw.update(form=a['form'], step=a['step'], step_calc=a['step_calc'])
+            self.declare_partials('*', '*', **kw)
+            if a.get('colored'):
+                self.declare_coloring(wrt='*', method=a['method'], num_full_jacs=2, tol=1e-20,
+                                      show_summary=False, show_sparsity=False)
+            return
         key = o['name'] + '|' + o['name']
         self._decl[key] = _declare(self, o['name'], o['name'], s['D'], s['fmt'][key], True)
         for i in s['ins']:
